@@ -12,7 +12,7 @@ func init() {
 		Trusted:     trustedCommon,
 	})
 	reg("C04", &PropSpec{
-		Rules:       []Rule{r("K1", RuleK1), r("M1", RuleM1), r("D4", RuleD4), r("K2", RuleK2), r("ID1", RuleID1), r("ID2", RuleID2), r("X1", RuleX1), r("R3", RuleR3), r("R4", RuleR4), r("H3", RuleH3), r("K2p", RuleK2p), r("TW1", RuleTW1)},
+		Rules:       []Rule{r("K1", RuleK1), r("M1", RuleM1), r("D4", RuleD4), r("K2", RuleK2), r("ID1", RuleID1), r("ID2", RuleID2), r("X1", RuleX1), r("R3", RuleR3), r("R4", RuleR4), r("H3", RuleH3), r("K2p", RuleK2p), r("TW1", RuleTW1), r("TP1", RuleTP1), r("NI", RuleNI("uniqURLPath", "similarPaths", "onlyOneProtocolIntoURL"))},
 		Explanation: "Whole-document equality with a model is not statically decidable. Decided necessary conditions: every directive kind has a consumer (K1: a kind without one is silently dropped); every field of the catalog model is serialised (M1); collections keep and serialise source order (D4); every directive of the table can be spelled to the scanner and nothing else can (K2); interactions are stored under the id they were built from (ID1); total serialisation switches (X1). Not decided: which interaction a child attaches to (C06), that values are copied unchanged, 'nothing else'. Also decided: key text == id text (ID2), no stale pre-walk value in the resolver (R3), a directive sits in exactly one place of the tree (R4), once-only slots are tested on themselves (H3), every descent into Children is unconditional up to kind tests (TW1), the description look-ahead agrees with the keyword set (K2p).",
 		Trusted:     trustedCommon,
 	})
